@@ -48,6 +48,11 @@ SUBMISSIONS = {
     # it is imported afresh by every execution
     'bakery-count': "from bakery import assert_equal, student_tests\ndef add(a, b):\n    return a + b\nassert_equal(add(1, 2), 3)\nassert_equal(add(1, 1), 3)\nprint('tests so far', student_tests.tests, student_tests.failures)\n",
     'bakery-read': "import bakery\ndef add(a, b):\n    return a + b\nprint('tests so far', bakery.student_tests.tests, add(1, 2))\n",
+    # submissions of two files: the second file has the same name in both and different contents; the function imports it when called
+    'helper-a': {'answer.py': "def total(values):\n    import helper\n    return helper.combine(values)\nprint(total([1, 2, 3]))\n",
+                 'helper.py': "def combine(values):\n    return sum(values)\n"},
+    'helper-b': {'answer.py': "def total(values):\n    import helper\n    return helper.combine(values)\nprint(total([1, 2, 3]))\n",
+                 'helper.py': "def combine(values):\n    return len(values)\n"},
     'uses-len': "def add(a, b):\n    return a + b\nwords = ['a', 'bb']\nprint(len(words), sum([1, 2]), add(1, 2))\n",
 }
 PRELUDES = {   # name: (code, leaky?)
@@ -89,6 +94,8 @@ BODIES = {
     'partial': "give_partial(0.25)\ngive_partial('10%')\n",
     'correct-if-ok': "if not get_exception():\n    set_correct()\n",
     'output-check': "if 'hi' in ''.join(get_output()):\n    compliment('You greeted.')\n",
+    # the instructor takes the student's function object out of the namespace and calls it directly
+    'direct-call': "fn = get_student_data().get('total')\nif fn is not None:\n    got = fn([4, 5, 6])\n    if got != 15:\n        gently('total([4, 5, 6]) gave %r' % (got,), label='direct_total_wrong')\n    else:\n        compliment('total works')\n",
     'turtle-sides': "sides = [c for c in get_module('turtles').calls if c[0] in ('forward', 'fd', 'right', 'left')]\nif len(sides) < 2:\n    gently('I only saw your turtle move %d times.' % len(sides), label='few_turtle_calls')\nelse:\n    compliment('The turtle moved %d times.' % len(sides))\n",
     'has-len': "ensure_function_call('len')\nassert_equal(evaluate('len([1, 2, 3])'), 3)\n",
 }
@@ -131,8 +138,10 @@ def build_pool(seed, n):
         # a body that looks at what a mocked module recorded goes with a submission that uses that module
         if sub in ('turtle-use', 'turtle-assign') and 'turtle-sides' not in bodies:
             bodies = bodies + ['turtle-sides']
+        if sub in ('helper-a', 'helper-b') and 'direct-call' not in bodies:
+            bodies = bodies + ['direct-call']
         script = 'from pedal import *\n' + ''.join(PRELUDES[p][0] for p in pre) + ''.join(BODIES[b] for b in bodies) + TAILS[tail]
-        leaky = any(PRELUDES[p][1] for p in pre) or tail != 'none' or sub in ('turtle-assign', 'math-assign', 'bakery-count')
+        leaky = any(PRELUDES[p][1] for p in pre) or tail != 'none' or sub in ('turtle-assign', 'math-assign', 'bakery-count', 'helper-a', 'helper-b')
         pool.append({'script': script, 'code': SUBMISSIONS[sub], 'env': env, 'tags': pre + bodies + [tail, sub, env], 'leaky': leaky})
     return pool
 
@@ -269,7 +278,7 @@ def pairs(tier):
     pool = build_pool(seed, n)
     leaky = [i for i, t in enumerate(pool) if t['leaky']]
     k = 0
-    twins = {'turtle-assign': 'turtle-use', 'math-assign': 'math-use', 'bakery-count': 'bakery-read'}
+    twins = {'turtle-assign': 'turtle-use', 'math-assign': 'math-use', 'bakery-count': 'bakery-read', 'helper-a': 'helper-b', 'helper-b': 'helper-a'}
     for i in leaky:
         for j in range(n):
             twin = any(a in pool[i]['tags'] and b in pool[j]['tags'] for a, b in twins.items())
